@@ -3,6 +3,7 @@ package main
 
 import (
 	"fmt"
+	"os"
 	"strings"
 
 	"verif/bfs"
@@ -11,11 +12,22 @@ import (
 
 func main() {
 	run := core.Start("C16", "model_checking")
+	if os.Getenv("VERIF_RACE_CHILD") != "" {
+		raceChild(run.Tier)
+		return
+	}
 	if run.Replay != "" {
 		replay(run)
 		return
 	}
-	runSequential(run)
+	if !run.Fork(16) {
+		if i, _, _ := run.Worker(); i == 0 {
+			runSequential(run)
+		}
+		runConcurrent(run)
+		run.Finish()
+	}
+	run.RacePass("--tier", string(run.Tier))
 	run.Set("traces_validated_against_impl", run.Get("transitions"))
 	run.Assume("every transition is executed on the real cache objects (no separate model to conform): traces_validated_against_impl = transitions")
 	run.Finish()
@@ -27,6 +39,10 @@ func replay(run *core.Run) {
 		Ops     []string `json:"ops"`
 	}
 	core.LoadArtefact(run.Replay, &art)
+	if art.Problem == "" {
+		replayConc(run)
+		return
+	}
 	if strings.HasPrefix(art.Problem, "seq/") {
 		var impl string
 		var capacity int
@@ -41,4 +57,31 @@ func replay(run *core.Run) {
 		}
 	}
 	run.Finish()
+}
+
+func replayConc(run *core.Run) {
+	var art struct {
+		Scenario string `json:"scenario"`
+		Choices  []int  `json:"choices"`
+	}
+	core.LoadArtefact(run.Replay, &art)
+	for _, tier := range []core.Tier{core.Quick, core.Thorough} {
+		for _, c := range concSpecs(tier) {
+			if c.name() == art.Scenario {
+				res, obs, v := c.scenario().Execute(art.Choices, true)
+				for _, l := range res.Trace {
+					fmt.Println("  ", l)
+				}
+				fmt.Println("observation:", obs)
+				if v != nil {
+					v.Artefact = art
+					run.Report(*v)
+				} else {
+					fmt.Println("replay: no violation")
+				}
+				run.Finish()
+			}
+		}
+	}
+	core.Fatalf("scenario %q not found", art.Scenario)
 }
